@@ -12,6 +12,10 @@ mod gen;
 mod mon_a;
 mod mon_b;
 mod mon_c;
+mod mon_d;
+mod mon_e;
+mod mon_par;
+mod supervise;
 mod mon_stream;
 mod prng;
 mod refdec;
@@ -39,6 +43,8 @@ fn run_monitor(ctx: &Ctx) -> i32 {
         "C02" => mon_b::run_c02(ctx),
         "C03" => mon_a::run_c03(ctx),
         "C04" => mon_a::run_c04(ctx),
+        "C05" => mon_par::run_c05(ctx),
+        "C06" => mon_par::run_c06(ctx),
         "C07" => mon_c::run_c07(ctx),
         "C08" => mon_b::run_c08(ctx),
         "C09" => mon_a::run_c09(ctx),
@@ -48,6 +54,9 @@ fn run_monitor(ctx: &Ctx) -> i32 {
         "C14" => mon_b::run_c14(ctx),
         "C13" => mon_a::run_c13(ctx),
         "C15" => mon_a::run_c15(ctx),
+        "C16" => mon_d::run_c16(ctx),
+        "C17" => mon_e::run_c17(ctx),
+        "C18" => mon_e::run_c18(ctx),
         "C19" => mon_c::run_c19(ctx),
         other => {
             eprintln!("unknown property {other}");
@@ -74,6 +83,7 @@ fn main() {
             let ctx = Ctx::new(prop, tier, seed_from_env(), budget);
             run_monitor(&ctx)
         }
+        Some("child") => mon_par::child_main(&args[2..]),
         Some("replay") => {
             let path = args.get(2).expect("replay path");
             let text = std::fs::read_to_string(path).expect("read replay file");
